@@ -305,7 +305,7 @@ impl<T: Qcow2IoOps> Qcow2Dev<T> {
             }
 
             //commit all populated caches and make them visible
-            Ok(cache.commit_wmap())
+            Ok(cache.commit_wmap(&key))
         } else {
             log::trace!("add_cache_slice: slice is already update");
             Ok(None)
